@@ -89,6 +89,25 @@ func ruleMergeSourcesPrivate(rule string) func(p *Prog, r *Result) {
 					}
 					perElement = !own
 				}
+				// a call inside the family that sits in a loop and hands merge something that is not a piece of the
+				// function's own source parameter: one source for many targets, unless it is made afresh per iteration
+				if !outside && !perElement && fn.Parent() == nil {
+					inLoop := false
+					for _, h := range loopHeaders(fn) {
+						if loopBody(h)[e.Site.Block()] {
+							inLoop = true
+						}
+					}
+					if inLoop {
+						own := true
+						for _, d := range p.Derive(args[idx], nil) {
+							if d.Root == nil || d.Root.Parent() != fn || !d.Strict {
+								own = false
+							}
+						}
+						perElement = !own
+					}
+				}
 				if !outside && !perElement {
 					continue
 				}
